@@ -274,11 +274,22 @@ func (p *prover) eval0(v ssa.Value, b *ssa.BasicBlock, depth int) lin {
 		if x.Op == token.MUL {
 			// element of a literal table
 			if ia, ok := x.X.(*ssa.IndexAddr); ok {
-				if g := globalLoad(ia.X); g != nil {
+				g := globalLoad(ia.X)
+				if g == nil {
+					g, _ = ia.X.(*ssa.Global)
+				}
+				if g != nil {
 					if lo, hi, ok := p.c.tableIntRange(g); ok {
 						return lin{lo: lo, hi: hi, ok: true, nonneg: lo >= 0}
 					}
 				}
+			}
+		}
+	case *ssa.Index:
+		// element of an array value loaded from a literal table
+		if g := globalLoad(x.X); g != nil {
+			if lo, hi, ok := p.c.tableIntRange(g); ok {
+				return lin{lo: lo, hi: hi, ok: true, nonneg: lo >= 0}
 			}
 		}
 	}
@@ -705,6 +716,74 @@ func (c *Ctx) tableLen(g *ssa.Global) (int64, bool) {
 
 // tableIntRange: min/max of an []int literal table.
 func (c *Ctx) tableIntRange(g *ssa.Global) (int64, int64, bool) {
+	// array-typed table: elements are stored through &g[k] in package init
+	if pt, ok := g.Type().Underlying().(*types.Pointer); ok {
+		if _, isArr := pt.Elem().Underlying().(*types.Array); isArr {
+			lo, hi, n := int64(inf), int64(-inf), 0
+			for fn := range c.AllRepoFuncs() {
+				for _, b := range fn.Blocks {
+					for _, in := range b.Instrs {
+						st, ok := in.(*ssa.Store)
+						if !ok {
+							continue
+						}
+						if st.Addr == ssa.Value(g) {
+							// whole-array store of a composite literal: elements of the literal's alloc
+							if ld, ok := st.Val.(*ssa.UnOp); ok {
+								if al, ok := ld.X.(*ssa.Alloc); ok {
+									for _, ref := range *al.Referrers() {
+										if ia, ok := ref.(*ssa.IndexAddr); ok {
+											for _, r2 := range *ia.Referrers() {
+												if s2, ok := r2.(*ssa.Store); ok {
+													k, ok := constInt(s2.Val)
+													if !ok {
+														return 0, 0, false
+													}
+													n++
+													if k < lo {
+														lo = k
+													}
+													if k > hi {
+														hi = k
+													}
+												}
+											}
+										}
+									}
+								}
+							}
+							continue
+						}
+						ia, ok := st.Addr.(*ssa.IndexAddr)
+						if !ok || ia.X != ssa.Value(g) {
+							continue
+						}
+						if fn.Name() != "init" {
+							return 0, 0, false
+						}
+						k, ok := constInt(st.Val)
+						if !ok {
+							return 0, 0, false
+						}
+						n++
+						if k < lo {
+							lo = k
+						}
+						if k > hi {
+							hi = k
+						}
+					}
+				}
+			}
+			if n > 0 {
+				if lo > 0 {
+					lo = 0 // elements not stored explicitly keep the zero value
+				}
+				return lo, hi, true
+			}
+			return 0, 0, false
+		}
+	}
 	for fn := range c.AllRepoFuncs() {
 		if fn.Name() != "init" {
 			continue
